@@ -500,6 +500,13 @@ class Interp:
             if isinstance(recv, Unknown) and "group0" in recv.meta and f.meta.get("attr") == "group" and \
                     (not args or (len(args) == 1 and isinstance(args[0], IntV) and args[0].v == 0)) and not kwargs:
                 return recv.meta["group0"]
+            if isinstance(recv, Unknown) and f.meta.get("attr") == "split" and len(args) == 1 and not kwargs and \
+                    isinstance(recv.meta.get("call_of"), Unknown) and recv.meta["call_of"].meta.get("attr") == "group" and \
+                    isinstance(args[0], Str) and args[0].is_concrete():
+                # <match>.group(k).split(sep): a list of pieces of that group's text (same shape as Str.split)
+                rex, septxt = self.expr_of(recv), args[0].text()
+                return AbsList(Str((Hole(f"{rex}.split({septxt!r})[*]", "split", meta={"split_of": rex, "sep": septxt, "of": recv}),)),
+                               f"{rex}.split({septxt!r})", {"nonempty": True, "split": (rex, septxt), "of": recv, "maxsplit": None})
             if isinstance(recv, Unknown) and "compiled" in recv.meta:
                 mod, pat = recv.meta["compiled"]
                 meth = getattr(self.bi, f"x_{mod}_{f.meta.get('attr')}", None)
